@@ -124,7 +124,9 @@ def r2(ctx: Ctx) -> None:
     f = ctx.func(STROP, "Strop._get_potential_trunks")
     c = canon_function(f, ctx.model)
     c = deref(c, single_defs(c))
-    m = ("a", S_, "_m")
+    from .common import self_field
+    m = self_field(f, "_m")
+    NROWS, NCOLS = self_field(f, "_nrows"), self_field(f, "_ncols")
     b10, b20 = ("b", 1, 0), ("b", 2, 0)
     ctx.site(f.where, "second candidate set computed on the transposed matrix and mapped back")
     tr = atoms_of(c, lambda x: x[0] == "comp" and x[1] == "list" and x[2] and x[2][0][0] == "comp")
@@ -133,8 +135,8 @@ def r2(ctx: Ctx) -> None:
         outer_b, outer_it, _ = t[3][0]
         inner = t[2][0]
         inner_b, inner_it, _ = inner[3][0]
-        if inner[2][0] == ("s", ("s", m, inner_b), _shift_bound(outer_b, 1)) and inner_it == ("c", ("g", "range"), (("a", S_, "_nrows"),), ()) and \
-                outer_it == ("c", ("g", "range"), (("a", S_, "_ncols"),), ()):
+        if inner[2][0] == ("s", ("s", m, inner_b), _shift_bound(outer_b, 1)) and inner_it == ("c", ("g", "range"), (NROWS,), ()) and \
+                outer_it == ("c", ("g", "range"), (NCOLS,), ()):
             ok_t = True
     back = atoms_of(c, lambda x: x[0] == "c" and x[1] == ("g", "StropRectangle") and len(x[2]) == 2 and x[2][0][0] == "a" and x[2][0][2] == "columns"
                     and x[2][1][0] == "a" and x[2][1][2] == "rows" and x[2][0][1] == x[2][1][1])
@@ -151,9 +153,9 @@ def r2(ctx: Ctx) -> None:
     R = ("p", 0)
     ctx.site(g.where, "four quadrants: rows before/after the trunk x columns before/after the trunk; all must be empty")
     lo_r = ("c", ("g", "range"), (("a", ("a", R, "rows"), "low"),), ())
-    hi_r = ("c", ("g", "range"), ((to_poly(("a", ("a", R, "rows"), "high")) + Poly.const(1)).to_s(), ("a", S_, "_nrows")), ())
+    hi_r = ("c", ("g", "range"), ((to_poly(("a", ("a", R, "rows"), "high")) + Poly.const(1)).to_s(), NROWS), ())
     lo_c = ("c", ("g", "range"), (("a", ("a", R, "columns"), "low"),), ())
-    hi_c = ("c", ("g", "range"), ((to_poly(("a", ("a", R, "columns"), "high")) + Poly.const(1)).to_s(), ("a", S_, "_ncols")), ())
+    hi_c = ("c", ("g", "range"), ((to_poly(("a", ("a", R, "columns"), "high")) + Poly.const(1)).to_s(), NCOLS), ())
     want = {(lo_r, lo_c), (lo_r, hi_c), (hi_r, lo_c), (hi_r, hi_c)}
     got = set()
     anys = atoms_of(cg, lambda x: x[0] == "c" and x[1] == ("g", "any"))
